@@ -5,7 +5,13 @@ FieldCollection / MemoryStorage objects vs the heap model `PdeVerif.Heap.step` (
 complex-rational values).  After every step the complete `np.shares_memory` relation (with
 relative offsets), the dtype, the member identities and the values read through every handle
 are compared.  Monitor: the property statements themselves, evaluated on the real objects at
-the level of memory addresses (independent of the model)."""
+the level of memory addresses (independent of the model).
+
+List objects that cross the API (`fc.fields`, `list(fc.labels)`, `fc.labels[:]`, lists the caller builds and
+passes to the constructor) are handles of the histories too: in-place operations on them (reverse, sort, item
+assignment, pop, append, insert, del, clear, extend) are modelled by `PdeVerif.Heap.xstep` (Model/HandOut.lean)
+as operations on a copy; the monitor demands, through the public API, that no collection and no other list
+changes; the content of every list and the member list of every collection are part of the tie."""
 import collections
 import logging
 import operator
@@ -29,7 +35,15 @@ REQUIRED_THEOREMS = [
     "data_is_live_view", "dataLive_run", "component_alias_history", "tensor_component_view",
     "apply_operator_footprint", "copy_reads_equal", "views_stable_run",
     "inplace_scalar_values", "binop_scalar_values",
+    # list objects that cross the API (Model/HandOut.lean): the list handed out by `fc.fields` / `list(fc.labels)` is
+    # a copy for all histories; no list operation touches memory; composition with the heap model; the constructor
+    # that keeps the list of its caller
+    "handed_out_list_is_a_copy", "handed_out_labels_are_a_copy", "edit_detached", "edit_never_touches_memory",
+    "no_list_edit_changes_world", "xrun_heap_is_run", "inv_xrun", "dataLive_xrun", "owners_xrun",
+    "caller_list_kept", "edit_owned_changes_members",
 ]
+# floors on what a quick run must have explored (run.py): in-place operations on list objects of the caller
+MIN_LEGS = {"list-edit": 400}
 RULE = ("random operation histories (5-40 operations: construction of scalar/vector/tensor fields, "
         "writes through data/_data_full/fc[k]/fc[label]/vector[c]=, marker writes of single cells, boundary-condition "
         "ghost writes, component views, FieldCollection with/without copy_fields (also duplicates, explicit dtype, "
@@ -53,6 +67,13 @@ ASSUMPTIONS = [
     "time'); member<->collection aliasing is demanded for the collection that linked the member last",
     "vector/tensor fields on a SphericalSymGrid are handed to differential operators only if they satisfy the "
     "documented precondition of those operators (no angular components at valid cells)",
+    "list objects: the model has both constructors (`xstep adopts`: FieldCollection(lst, copy_fields=False) keeps the list "
+    "object of its caller, collection.py:99, or stores a list of its own); which one the tree under test has is read off "
+    "its behaviour through the public API (`ctor_keeps_caller_list`, recorded in input_distribution). The monitor is "
+    "independent of it and reports the keeping constructor (key caller-list-kept-as-member-list) in the fixed histories "
+    "of every run; a history ends with the first list operation that changed a collection (members and layout disagree "
+    "from then on). Lists of labels are modelled as lists of tokens (the member whose label it was); Python's list "
+    "semantics and `id()` are trusted",
 ]
 TRUSTED_EXTRA = ["np.shares_memory and ndarray.__array_interface__ as the definition of the real aliasing relation"]
 
@@ -199,6 +220,36 @@ def classify(e):
 
 RELINK_DETACH = ("component view taken before FieldCollection(copy_fields=False) re-linked its field no longer "
                  "aliases the field")
+# list objects that cross the API (Model/HandOut.lean).  Judged by effect, through the public API only: after an
+# in-place operation on a list object of the caller every collection still has the same member objects in the same
+# order, the same length and the same labels, and every other list object of the caller reads what it read before.
+HANDOUT_ALIAS = ("copies never alias their source - an in-place operation on the list obtained from "
+                 "FieldCollection.fields / list(labels) changed the collection (or another handed-out list)")
+KEPT_LIST = ("layout fixed as fields in order - an in-place operation on the list that had been passed to "
+             "FieldCollection(copy_fields=False) changed the collection (the constructor keeps the list of its caller)")
+HANDOUT_WRONG = "the list handed out by the collection does not read the members (their labels) in order"
+
+
+def ctor_keeps_caller_list(pde):
+    """Which constructor does the tree under test have?  collection.py:99 `self._fields = fields`:
+    FieldCollection(lst, copy_fields=False) keeps the list OBJECT of its caller as its member list (for pairwise
+    different fields); the alternative stores a list of its own.  The model has both (`xstep adopts`,
+    Model/HandOut.lean: a branch of the code like any other); which one applies is read off the code by its
+    behaviour through the public API.  A tree for which this returns True violates the property (the caller's
+    next `lst.append(..)` changes the collection): the monitor reports it (KEPT_LIST) in the fixed histories of
+    every run and wherever a random history makes it observable, so a quiet run always means `adopts = false`,
+    the case of theorem `no_list_edit_changes_world`."""
+    key = id(pde)
+    if key not in _CTOR_PROBE:
+        g = pde.UnitGrid([2])
+        lst = [pde.ScalarField(g, 1.0)]
+        fc = pde.FieldCollection(lst)
+        lst.append(pde.ScalarField(g, 2.0))
+        _CTOR_PROBE[key] = len(fc) != 1
+    return _CTOR_PROBE[key]
+
+
+_CTOR_PROBE = {}
 
 
 class Skip(Exception):
@@ -316,6 +367,14 @@ class World:
         self.cur_kind = None
         self.member_ids = {}   # collection id -> ids of its member objects at creation
         self.skips = collections.Counter()   # proposals that were not applicable (guard failed), by operation kind
+        self.lists = []        # list objects of the caller: dict(obj, kind, src, given=[collections built from it with
+        #                        copy_fields=False], tokstr (labels: token -> string))
+        self.lname = {}        # uid of the operation that made the list -> index into self.lists
+        self.prev_members = {}  # collection id -> member ids at the last observation
+        self.halted = False    # a list operation changed a collection: the world is no longer one the property
+        #                        speaks about (members and layout disagree) - the history ends with the report
+        self.n_list_edits = 0
+        self.adopts = ctor_keeps_caller_list(pde)   # which of the two modelled constructors the tree under test has
 
     # ---- handles ---------------------------------------------------------------------------
     def rid(self, name):
@@ -323,6 +382,19 @@ class World:
         if i is None:
             raise Skip()
         return i
+
+    def lid(self, uid):
+        i = self.lname.get(uid)
+        if i is None:
+            raise Skip()
+        return i
+
+    def list_items(self, L):
+        """content of a list object of the caller: handle numbers (None: not an object of this world) or the
+        strings of a list of labels"""
+        if L["kind"] == "labels":
+            return list(L["obj"])
+        return [self.idmap.get(id(x)) for x in L["obj"]]
 
     def full(self, i):
         o = self.objs[i]
@@ -408,6 +480,11 @@ class World:
             a = self.full(i)
             flat = np.array(a, copy=True).ravel()
             dt = DTN.get(a.dtype, str(a.dtype))
+            # the member list of a collection is part of what is observed (a list operation can change it
+            # without touching memory)
+            mem = self.members(i) if self.cls[i] == "coll" else []
+            mem_same = self.prev_members.get(i, mem) == mem
+            self.prev_members[i] = mem
             if i < len(self.prev):
                 old, odt, oaddr = self.prev[i]
                 same = odt == dt and oaddr == info[i][0] and old.size == flat.size
@@ -417,18 +494,20 @@ class World:
                     same = bool(np.all(beq | (old == flat)))
                     if same:
                         self.prev[i] = (flat, dt, info[i][0])
-                if same:
+                if same and mem_same:
                     continue
-                nchanged_old += 1
-                self.prev[i] = (flat, dt, info[i][0])
+                if not same:
+                    nchanged_old += 1
+                    self.prev[i] = (flat, dt, info[i][0])
             else:
                 self.prev.append((flat, dt, info[i][0]))
             changed[i] = {"dt": dt, "size": a.size, "contig": bool(a.flags.c_contiguous), "vals": flat,
-                          "members": self.members(i) if self.cls[i] == "coll" else [],
+                          "members": mem,
                           "cls": self.cls[i], "grid": self.gid[i]}
         stale = [i for i in range(n) if self.cls[i] != "raw" and not self.data_is_live(i)]
+        lists = [{"kind": L["kind"], "items": self.list_items(L), "tokstr": dict(L.get("tokstr") or {})} for L in self.lists]
         return {"err": err, "n": n, "pairs": pairs, "dbad": dbad, "root": rootlab, "changed": changed, "stale": stale,
-                "model_idx": len(self.model_ops) - 1, "nchanged_old": nchanged_old}
+                "model_idx": len(self.model_ops) - 1, "nchanged_old": nchanged_old, "lists": lists}
 
     # ---- monitors (direct statements of the property on the real objects) -------------------------
     def check_frame(self, n_old, allowed, moved, what, failed=None):
@@ -597,6 +676,8 @@ class World:
     def apply(self, d):
         """execute opdesc `d`; False if it is not applicable here (nothing happened)"""
         import warnings
+        if self.halted:
+            return False
         n_old = len(self.objs)
         n_model_old = len(self.model_ops)
         self.cur_kind = d["k"]
@@ -641,7 +722,13 @@ class World:
             # state unchanged"): no cell is allowed, no handle may have moved
             moved = set(out.get("moved", ())) if err is None else set()
             self.check_frame(n_old, (out.get("allowed") or []) if err is None else [], moved, what, failed=err)
-            if err is None:
+            if "list_monitor" in out and out["list_monitor"]():
+                # the collection no longer is what its layout says; everything the other monitors would add
+                # is a consequence of the failure just recorded
+                self.halted = True
+            if self.halted:
+                pass
+            elif err is None:
                 fresh = [self.idmap[id(o)] for o in out.get("fresh", [])]
                 for j in list(fresh):
                     if self.cls[j] == "coll":
@@ -666,7 +753,7 @@ class World:
                 if out.get("same") is not None and out["same"][0] is not out["same"][1]:
                     self.fail(f"{what}: in-place operation did not return the object itself", {})
             self.check_data_view()
-            for ci in range(len(self.objs)):
+            for ci in range(len(self.objs) if not self.halted else 0):
                 if self.cls[ci] == "coll":
                     self.check_collection(ci, write_test=(ci >= n_old))
                     if ci >= n_old:
@@ -983,6 +1070,7 @@ class World:
         how = d.get("how", "list")
         dt = d.get("dt")
         cp = bool(d["copy"])
+        kept = None
         if how == "steal":
             ci = self.rid(d["hs"][0])
             if self.cls[ci] != "coll":
@@ -991,6 +1079,16 @@ class World:
             if any(m is None for m in ids):
                 raise Skip()
             arg = self.objs[ci]
+        elif how == "kept_list":
+            # `FieldCollection(lst, ...)` for a list object the caller keeps (built by the caller or obtained from
+            # `fc.fields`, possibly edited since): an empty list is the documented error
+            kept = self.lists[self.lid(d["l"])]
+            if kept["kind"] == "labels":
+                raise Skip()
+            ids = self.list_items(kept)
+            if any(i is None or self.cls[i] == "raw" for i in ids):
+                raise Skip()
+            arg = kept["obj"]
         else:
             ids = [self.byname[tuple(h)] for h in d["hs"] if tuple(h) in self.byname]   # (shrinking may have removed some)
             if not ids or any(self.cls[i] == "raw" for i in ids):
@@ -1005,9 +1103,189 @@ class World:
                 if self.cls[i] != "coll" and not self.converts_exactly(i, dt):
                     raise Skip()
         res, err = self.try_real(lambda: FC(arg, copy_fields=cp, dtype=DT[dt] if dt else None))
-        self.model_ops.append({"op": "mkColl", "hs": ids, "copy": cp, "dt": dt})
+        if kept is not None:
+            self.model_ops.append({"op": "mkCollFrom", "l": self.lid(d["l"]), "copy": cp, "dt": dt})
+        else:
+            self.model_ops.append({"op": "mkColl", "hs": ids, "copy": cp, "dt": dt})
         effective_copy = cp or len(set(ids)) != len(ids)
-        return self.coll_result(res, err, moved=() if effective_copy else ids)
+        out = self.coll_result(res, err, moved=() if effective_copy else ids)
+        if kept is not None and err is None and not effective_copy:
+            out["finish"] = lambda: kept["given"].append(self.idmap[id(res)])
+        return out
+
+    # ---- list objects of the caller ------------------------------------------------------------
+    def op_hand(self, d):
+        """`lst = fc.fields`, `lst = list(fc.labels)`, `lst = fc.labels[:]`"""
+        ci = self.rid(d["c"])
+        if self.cls[ci] != "coll" or any(m is None for m in self.members(ci)):
+            raise Skip()
+        fc = self.objs[ci]
+        what = d["what"]
+        if what == "fields":
+            res, err = self.try_real(lambda: fc.fields)
+        elif what == "labels":
+            res, err = self.try_real(lambda: list(fc.labels))
+        else:
+            res, err = self.try_real(lambda: fc.labels[:])
+        if err is not None or not isinstance(res, list):
+            raise Unexpected(f"handing out the list of {what} failed / returned no list: {err or type(res).__name__}")
+        kind = "fields" if what == "fields" else "labels"
+        self.model_ops.append({"op": "fieldsOf" if kind == "fields" else "labelsOf", "c": ci})
+        L = {"obj": res, "kind": kind, "src": ci, "given": []}
+        if kind == "labels":
+            L["tokstr"] = dict(zip(self.members(ci), res))
+        self.lname[d["uid"]] = len(self.lists)
+        self.lists.append(L)
+
+        def monitor():
+            expect = [f.label for f in fc.fields] if kind == "labels" else [id(f) for f in fc.fields]
+            got = list(res) if kind == "labels" else [id(x) for x in res]
+            if got != expect or (kind == "fields" and expect != self.member_ids.get(ci)):
+                self.fail(HANDOUT_WRONG, {"coll": ci, "what": what})
+            return False
+        return {"err": None, "list_monitor": monitor}
+
+    def op_ulist(self, d):
+        """`lst = [f, g, ...]`: a list the caller builds (and keeps)"""
+        ids = [self.byname[tuple(h)] for h in d["hs"] if tuple(h) in self.byname]
+        if any(self.cls[i] == "raw" for i in ids):
+            raise Skip()
+        self.model_ops.append({"op": "userList", "hs": ids})
+        self.lname[d["uid"]] = len(self.lists)
+        self.lists.append({"obj": [self.objs[i] for i in ids], "kind": "user", "src": None, "given": []})
+        return {"err": None}
+
+    def list_world(self, skip):
+        """what list operations must leave alone, read through the public API: per collection the member objects in
+        order, `len`, the labels; the content of every list object but `skip`"""
+        colls = {}
+        for ci in range(len(self.objs)):
+            if self.cls[ci] == "coll":
+                fc = self.objs[ci]
+                colls[ci] = ([id(f) for f in fc.fields], len(fc), list(fc.labels))
+        lists = {j: [x if L["kind"] == "labels" else id(x) for x in L["obj"]]
+                 for j, L in enumerate(self.lists) if j != skip}
+        return colls, lists
+
+    def layout_of(self, fc):
+        """diagnosis for the report: is member k still a view of its slot (fields in order)?"""
+        try:
+            base = fc._data_full
+            start = 0
+            for kk, f in enumerate(fc.fields):
+                if isinstance(f, self.pde.FieldCollection):
+                    return f"member {kk} is a collection"
+                num = fc.grid.dim ** f.rank
+                ff = f._data_full
+                if start + num > base.shape[0]:
+                    return f"member {kk} would need components [{start}:{start + num}], the collection has {base.shape[0]}"
+                if f.grid != fc.grid or not np.shares_memory(ff, base) or addr(ff) != addr(base[start]):
+                    return f"member {kk} is not a view of components [{start}:{start + num}] of the collection"
+                start += num
+            if start != base.shape[0]:
+                return f"the members cover {start} of the {base.shape[0]} components of the collection"
+            return "members in order are views of consecutive slots"
+        except Exception as ex:  # noqa: BLE001
+            return f"layout cannot be evaluated: {type(ex).__name__}"
+
+    def op_ledit(self, d):
+        """an in-place operation on a list object of the caller"""
+        li = self.lid(d["l"])
+        L = self.lists[li]
+        lst = L["obj"]
+        e = d["e"]
+        n = len(lst)
+        mop = {"op": "edit", "l": li, "e": e}
+        new = []
+        if e in ("setItem", "append", "insert", "extend"):
+            xs = [self.rid(nm) for nm in d["xs"]]
+            if any(self.cls[x] == "raw" for x in xs) or (e != "extend" and len(xs) != 1):
+                raise Skip()
+            if L["kind"] == "labels":
+                new = [L["tokstr"].setdefault(x, f"ins{x}") for x in xs]
+            else:
+                new = [self.objs[x] for x in xs]
+            if e == "extend":
+                mop["xs"] = xs
+            else:
+                mop["x"] = xs[0]
+        k = py = None
+        if e in ("setItem", "delItem", "pop_at"):
+            k = n + d["i"] % 2 if (d.get("oob") or n == 0) else d["i"] % n       # beyond the end: IndexError
+            py = k - n if (d.get("neg") and k < n) else k
+            mop["k"] = k
+        elif e == "insert":
+            k = d["i"] % (n + 2)                                                    # beyond the end: appends
+            py = k - n if (d.get("neg") and k < n) else k
+            mop["k"] = k
+        if e == "pop_at":
+            mop["e"] = "pop"
+        if e == "sort":
+            if L["kind"] == "labels" or any(self.idmap.get(id(x)) is None for x in lst):
+                raise Skip()
+        before = self.list_world(li) if self.monitors else None
+        mine = list(lst)
+        err = None
+        try:
+            if e == "reverse":
+                lst.reverse()
+            elif e == "sort":
+                lst.sort(key=lambda f: self.idmap[id(f)])
+            elif e == "setItem":
+                lst[py] = new[0]
+            elif e == "pop":
+                lst.pop()
+            elif e == "pop_at":
+                lst.pop(py)
+            elif e == "append":
+                lst.append(new[0])
+            elif e == "insert":
+                lst.insert(py, new[0])
+            elif e == "delItem":
+                del lst[py]
+            elif e == "clear":
+                lst.clear()
+            elif e == "extend":
+                if d.get("iadd"):
+                    lst += new
+                else:
+                    lst.extend(new)
+            else:
+                raise Skip()
+        except IndexError:
+            err = "badArg"
+        self.model_ops.append(mop)
+        self.n_list_edits += 1
+
+        def monitor():
+            colls, lists = self.list_world(li)
+            bc, bl = before
+            flagged = False
+            for ci, was in bc.items():
+                now = colls[ci]
+                if now != was:
+                    fc = self.objs[ci]
+                    link = self.layout_of(fc)
+                    what = KEPT_LIST if ci in L["given"] else HANDOUT_ALIAS
+                    ids = lambda t: [self.idmap.get(x) for x in t]
+                    self.fail(what, {"list": li, "list_kind": L["kind"], "list_from_collection": L["src"], "edit": e, "raised": err,
+                                     "collection": ci, "members_before": ids(was[0]), "members_after": ids(now[0]),
+                                     "len_before": was[1], "len_after": now[1], "labels_before": was[2], "labels_after": now[2],
+                                     "layout_after": link})
+                    flagged = True
+                    break
+            if not flagged:
+                for j, was in bl.items():
+                    if lists[j] != was:
+                        self.fail(HANDOUT_ALIAS, {"list": li, "list_kind": L["kind"], "edit": e, "raised": err,
+                                                  "other_list": j, "other_list_kind": self.lists[j]["kind"],
+                                                  "other_len_before": len(was), "other_len_after": len(lists[j])})
+                        flagged = True
+                        break
+            if err is not None and (len(mine) != len(lst) or any(a is not b for a, b in zip(mine, lst))):
+                self.fail("a list operation that raised IndexError changed the list", {"list": li, "edit": e})
+            return flagged
+        return {"err": err, "list_monitor": monitor}
 
     def op_fromData(self, d):
         g = d["g"]
@@ -1448,7 +1726,7 @@ class World:
     def request(self):
         return {"grids": [{"mask": "".join("1" if b else "0" for b in m), "dim": g.dim}
                           for m, g in zip(self.masks, self.grids)],
-                "ops": self.model_ops}
+                "ops": self.model_ops, "adopts": self.adopts}
 
 
 # ------------------------------------------------------------------------------------------
@@ -1561,6 +1839,9 @@ class Gen:
             ("binop", 4 * crowd if nf else 0), ("inplace", 4.5 if nf else 0), ("operator", 1.3 * crowd * self.op_boost if nf else 0),
             ("derived", 1.2 * crowd if nf else 0), ("storage", (4.5 if w.storages else 1.5) * crowd if nf else 0),
             ("malformed", 1.6 if nf else 0),
+            # list objects that cross the API: hand-outs, lists built by the caller, in-place operations on them
+            ("hand", 2.2 * crowd if ncoll else 0), ("ulist", 0.9 * crowd if nf else 0),
+            ("ledit", (4.5 if len(w.lists) < 4 else 3.0) if w.lists else 0),
         ]
         kinds, weights = zip(*table)
         k = rng.choices(kinds, weights)[0]
@@ -1675,6 +1956,11 @@ class Gen:
             ci = self.pick(lambda j: w.cls[j] == "coll")
             if ci is not None:
                 return {"k": "mkColl", "how": "steal", "hs": [self.name(ci)], "copy": rng.random() < 0.3, "dt": None}
+        cand = [u for u, j in w.lname.items() if w.lists[j]["kind"] != "labels"]
+        if cand and rng.random() < 0.3:
+            # a list object the caller keeps (and may edit afterwards)
+            return {"k": "mkColl", "how": "kept_list", "l": rng.choice(cand[-4:]), "hs": [], "copy": rng.random() < 0.35,
+                    "dt": rng.choice([None] * 6 + ["f64", "c128"])}
         g = rng.randrange(len(w.grids))
         ids = self.fields_on(g, rng.choice([1, 1, 2, 2, 3, 4]), allow_dup=rng.random() < 0.12)
         if not ids:
@@ -1682,6 +1968,45 @@ class Gen:
         dt = rng.choice([None] * 6 + ["f64", "c128", "f32", "c64"])
         return {"k": "mkColl", "how": rng.choice(["list", "list", "list", "mapping"]), "hs": [self.name(i) for i in ids],
                 "copy": rng.random() < 0.4, "dt": dt}
+
+    def g_hand(self):
+        w, rng = self.w, self.rng
+        ci = self.pick(lambda j: w.cls[j] == "coll")
+        if ci is None:
+            return None
+        return {"k": "hand", "c": self.name(ci), "what": rng.choice(["fields", "fields", "fields", "labels", "labels_slice"])}
+
+    def g_ulist(self):
+        w, rng = self.w, self.rng
+        g = rng.randrange(len(w.grids))
+        r = rng.random()
+        if r < 0.08:
+            return {"k": "ulist", "hs": []}                     # (the constructor rejects an empty list)
+        ids = self.fields_on(g, rng.choice([1, 2, 2, 3, 3, 4]), allow_dup=r < 0.2)
+        if not ids:
+            return None
+        return {"k": "ulist", "hs": [self.name(i) for i in ids]}
+
+    def g_ledit(self):
+        w, rng = self.w, self.rng
+        us = list(w.lname)
+        u = rng.choice(us[-3:] if rng.random() < 0.7 else us)
+        L = w.lists[w.lname[u]]
+        e = rng.choice(["reverse", "reverse", "reverse", "sort", "setItem", "setItem", "pop", "pop", "pop_at", "append",
+                        "append", "insert", "delItem", "clear", "extend"])
+        if e == "sort" and L["kind"] == "labels":
+            e = "reverse"
+        d = {"k": "ledit", "l": u, "e": e, "i": rng.randrange(12), "neg": rng.random() < 0.3, "oob": rng.random() < 0.06}
+        if e in ("setItem", "append", "insert", "extend"):
+            # objects to put into the list: mostly fields on the grid of what the list holds already
+            gids = {w.gid[i] for i in w.list_items(L) if isinstance(i, int) and L["kind"] != "labels"}
+            c = [i for i in range(len(w.objs)) if w.cls[i] != "raw" and (not gids or w.gid[i] in gids or rng.random() < 0.1)
+                 and (w.cls[i] != "coll" or rng.random() < 0.15)]
+            if not c:
+                return None
+            d["xs"] = [self.name(rng.choice(c)) for _ in range(rng.choice([1, 2, 3]) if e == "extend" else 1)]
+            d["iadd"] = rng.random() < 0.5
+        return d
 
     def g_fromData(self):
         w, rng = self.w, self.rng
@@ -1883,7 +2208,7 @@ def gen_history(rng, length, numba_share=0.0, monitors=True, op_boost=1.0):
     w = World(gspecs, monitors=monitors)
     gen = Gen(rng, w, numba_share, op_boost)
     tries = 0
-    while len(w.script) < length and tries < 6 * length and w.unexpected is None:
+    while len(w.script) < length and tries < 6 * length and w.unexpected is None and not w.halted:
         tries += 1
         d = gen.propose()
         if d is not None:
@@ -1950,6 +2275,17 @@ def compare(w, answer):
                 if a is not None and a != b:
                     return {"step": t, "what": f"value read through handle {i} ({e['cls']}) at padded position {p} after {opname}",
                             "model": str(a), "impl": str(b)}
+        if m.get("lists") is not None:
+            ml, rl = m["lists"], rec["lists"]
+            if len(ml) != len(rl):
+                return {"step": t, "what": f"number of list objects of the caller after {opname}", "model": len(ml), "impl": len(rl)}
+            for j, (a, b) in enumerate(zip(ml, rl)):
+                if b["kind"] == "labels":
+                    mv = [b["tokstr"].get(x, f"<label of object {x}>") for x in a["items"]]
+                else:
+                    mv = a["items"]
+                if a["kind"] != b["kind"].replace("labels_slice", "labels") or mv != b["items"]:
+                    return {"step": t, "what": f"content of list object {j} ({b['kind']}) after {opname}", "model": mv, "impl": b["items"]}
         lab, seen = [], {}
         for i in range(rec["n"]):
             lab.append(seen.setdefault(cur_model[i]["buf"], i))
@@ -2002,6 +2338,66 @@ def case_of(w):
     return {"grids": w.gspecs, "script": w.script, "mode": current_mode()}
 
 
+# fixed histories about list objects, executed in every run (whatever the seed): three fields a, v, b on a 1-d grid,
+# a collection, and the in-place operations a caller may apply to a list it holds
+def _fixed_fields():
+    return [{"k": "mkField", "g": 0, "cls": "scalar", "dt": None, "init": "valid", "vals": [0.0, 1.0, 2.0, 3.0, 0.0], "uid": 1},
+            {"k": "mkField", "g": 0, "cls": "vector", "dt": None, "init": "valid", "vals": [0.0, 4.0, 5.0, 6.0, 0.0], "uid": 2},
+            {"k": "mkField", "g": 0, "cls": "scalar", "dt": "f32", "init": "valid", "vals": [0.0, 7.0, 8.0, 9.0, 0.0], "uid": 3},
+            {"k": "mkField", "g": 0, "cls": "scalar", "dt": None, "init": "zeros", "default_arg": True, "uid": 4}]
+
+
+def _edit(l, e, uid, i=0, xs=None, **kw):
+    d = {"k": "ledit", "l": l, "e": e, "i": i, "neg": False, "oob": False, "uid": uid}
+    if xs is not None:
+        d.update(xs=xs, iadd=False)
+    d.update(kw)
+    return d
+
+
+def fixed_histories():
+    names = [[1, 0], [2, 0], [3, 0]]
+    coll = {"k": "mkColl", "how": "list", "hs": names, "copy": False, "dt": None, "uid": 5}
+    out = []
+    # the list passed to the constructor, edited afterwards
+    for j, e in enumerate([_edit(5, "reverse", 7), _edit(5, "append", 7, xs=[[4, 0]]), _edit(5, "pop", 7),
+                           _edit(5, "setItem", 7, i=0, xs=[[4, 0]])]):
+        for cp in (False, True):
+            out.append((f"caller-list:{e['e']}:copy_fields={cp}", _fixed_fields() + [
+                {"k": "ulist", "hs": names, "uid": 5},
+                {"k": "mkColl", "how": "kept_list", "l": 5, "hs": [], "copy": cp, "dt": None, "uid": 6}, e,
+                {"k": "write", "h": [6, 0], "how": "data_scalar", "c": 5.0, "uid": 8}]))
+    # the list obtained from `fc.fields`
+    edits = [_edit(6, "reverse", 7), _edit(6, "sort", 7), _edit(6, "setItem", 7, i=0, xs=[[4, 0]]), _edit(6, "pop", 7),
+             _edit(6, "pop_at", 7, i=0), _edit(6, "append", 7, xs=[[4, 0]]), _edit(6, "insert", 7, i=1, xs=[[4, 0]]),
+             _edit(6, "delItem", 7, i=1), _edit(6, "clear", 7), _edit(6, "extend", 7, xs=[[4, 0], [1, 0]], iadd=True),
+             _edit(6, "delItem", 7, i=1, oob=True)]
+    for e in edits:
+        out.append((f"fields:{e['e']}", _fixed_fields() + [coll, {"k": "hand", "c": [5, 0], "what": "fields", "uid": 6}, e,
+                    {"k": "hand", "c": [5, 0], "what": "fields", "uid": 8}, _edit(8, "reverse", 9),
+                    {"k": "write", "h": [5, 0], "how": "setitem", "idx": 0, "c": 5.0, "uid": 10},
+                    {"k": "copy", "h": [5, 0], "dt": None, "how": "copy", "uid": 11}]))
+    # lists of labels
+    for what in ("labels", "labels_slice"):
+        for e in (_edit(6, "reverse", 7), _edit(6, "setItem", 7, i=0, xs=[[4, 0]]), _edit(6, "clear", 7)):
+            out.append((f"{what}:{e['e']}", _fixed_fields() + [coll, {"k": "hand", "c": [5, 0], "what": what, "uid": 6}, e,
+                        {"k": "hand", "c": [5, 0], "what": "fields", "uid": 8}]))
+    return [(name, {"grids": [["unit", [3], [False]]], "script": sc}) for name, sc in out]
+
+
+def fixed_leg(args):
+    """the fixed histories on the real code (monitors) and on the model, in this interpreter's mode"""
+    workdir = sub_workdir()
+    res = []
+    for name, case in fixed_histories():
+        case = dict(case, mode=current_mode())
+        w = rebuild(case)
+        diff = model_diff(w, workdir)
+        res.append((name, dict(case, script=w.script), w.mfail, None if diff is None else plain(diff), w.n_monitor, w.n_list_edits,
+                    len(w.script) == len(case["script"]) or w.halted))
+    return res
+
+
 def case_mode(case):
     return case.get("mode") or {"jit": True}
 
@@ -2047,11 +2443,12 @@ def retargets(case, script):
             for n in names:
                 if n != last[f]:
                     out.append(script[:-1] + [dict(last, **{f: n})])
-    if isinstance(last.get("hs"), list):
-        for k in range(len(last["hs"])):
-            for n in names:
-                if n != last["hs"][k]:
-                    out.append(script[:-1] + [dict(last, hs=last["hs"][:k] + [n] + last["hs"][k + 1:])])
+    for key in ("hs", "xs"):
+        if isinstance(last.get(key), list):
+            for k in range(len(last[key])):
+                for n in names:
+                    if n != last[key][k]:
+                        out.append(script[:-1] + [dict(last, **{key: last[key][:k] + [n] + last[key][k + 1:]})])
     return out[:80]
 
 
@@ -2176,7 +2573,7 @@ def worker(args):
     workdir = os.path.join(os.environ["VERIF_WORKDIR"], f"c15w{os.getpid()}")
     os.makedirs(workdir, exist_ok=True)
     out = {"cases": [], "hists": collections.defaultdict(collections.Counter), "monitor_evals": 0,
-           "mfails": [], "dis": []}
+           "mfails": [], "dis": [], "list_edits": 0}
     hist = lambda name, key, n=1: out["hists"][name].update({str(key): n})
     done = 0
     while done < n_hist:
@@ -2197,6 +2594,9 @@ def worker(args):
             out["cases"].append(({"grids": case["grids"], "mode": case["mode"], "ops": summarize(case)},
                                  bool(w.write_seen and "alias" in w.flags)))
             out["monitor_evals"] += w.n_monitor
+            out["list_edits"] += w.n_list_edits
+            hist("history_ended_by_list_finding", bool(w.halted))
+            hist("constructor_keeps_caller_list", bool(w.adopts))
             hist("history_length", len(w.script))
             hist("execution_mode", "numba-jit" if jit else "NUMBA_DISABLE_JIT=1")
             hist("objects_at_end", min(len(w.objs) // 10 * 10, 90))
@@ -2204,8 +2604,11 @@ def worker(args):
                 hist("grid", f"{g[0]}{len(g[1]) if g[0] == 'unit' else ''}")
             for d, rec in zip(w.script, w.steps):
                 hist("operation", d["k"] + (":" + str(d.get("how", d.get("what", d.get("bop", ""))))
-                                            if d["k"] in ("write", "storage", "derived", "binop", "inplace", "mkColl") else ""))
+                                            if d["k"] in ("write", "storage", "derived", "binop", "inplace", "mkColl", "hand") else ""))
                 hist("outcome", rec["err"] or "ok")
+                if d["k"] == "ledit":
+                    L = w.lists[w.lname[d["l"]]]
+                    hist("list_edit", f"{d['e']}:{L['kind']}" + (":passed-to-constructor" if L["given"] else ""))
                 if d["k"] == "operator":
                     gk = w.gspecs[w.gid[w.byname[tuple(d["h"])]]][0]
                     hist("operator_backend", d.get("backend") + ("" if jit or d.get("backend") != "numba" else "(source)"))
@@ -2263,11 +2666,28 @@ def run(ctx):
             ctx.count(case, nontrivial=nontrivial, leg="history")
             ctx.impl_traces += 1
         ctx.monitor_evals += r["monitor_evals"]
+        ctx.legs["list-edit"] += r["list_edits"]
         for name, cnt in r["hists"].items():
             for key, n in cnt.items():
                 ctx.hist(name, key, n)
         mfails += r["mfails"]
         dis += r["dis"]
+    # fixed histories about list objects (every run, whatever the seed), in both execution modes in turn
+    for name, case, mf, diff, n_mon, n_edits, complete in in_mode("fixed_leg", (), {"jit": bool(ctx.seed % 2)}, ctx.workdir):
+        ctx.count({"fixed": name, "ops": summarize(case), "mode": case["mode"]}, nontrivial=True, leg="fixed-list-history")
+        ctx.impl_traces += 1
+        ctx.monitor_evals += n_mon
+        ctx.legs["list-edit"] += n_edits
+        if not complete:
+            from harness.common.lean import BrokenCheck
+            raise BrokenCheck(f"fixed history `{name}` is not executable: {summarize(case)}")
+        seen_f = set()
+        for f in mf:
+            if f["what"] not in seen_f:
+                seen_f.add(f["what"])
+                mfails.append((case, f))
+        if diff is not None:
+            dis.append((case, diff))
     # monitor failures: one shrunk history per kind of failure, the others as found
     mfails.sort(key=lambda cf: len(cf[0]["script"]))
     shrunk = set()
@@ -2299,6 +2719,11 @@ def run(ctx):
 
 
 def finding_key(f):
+    if f["what"] == KEPT_LIST:
+        return {"call_site": "FieldCollection.__init__", "argument": "fields=<list>, copy_fields=False",
+                "symptom": "caller-list-kept-as-member-list"}
+    if f["what"] in (HANDOUT_ALIAS, HANDOUT_WRONG):
+        return {"call_site": "FieldCollection.fields / labels", "symptom": "handed-out-list-aliases-collection"}
     if f["what"] == RELINK_DETACH:
         return {"call_site": "FieldCollection.__init__", "argument": "copy_fields=False",
                 "symptom": "component-view-taken-earlier-detached-from-relinked-field"}
